@@ -220,14 +220,20 @@ def _library_exception(exc, shard):
     library failing on an input of the alphabet, not a harness fault: it becomes a violation whose replay is the shard"""
     tb = exc.__traceback__
     last = None
+    repo = os.path.realpath(REPO) + os.sep
+    harness = os.path.realpath(VERIF) + os.sep
     while tb is not None:
-        last = tb
+        # the innermost frame that belongs to the code under test, provided no harness frame follows it (the library may
+        # have failed inside a third-party routine it called: scipy, numpy, pandas)
+        fn_ = os.path.realpath(tb.tb_frame.f_code.co_filename)
+        if fn_.startswith(repo):
+            last = tb
+        elif fn_.startswith(harness):
+            last = None
         tb = tb.tb_next
     if last is None or isinstance(exc, HarnessError):
         return None
     fn = os.path.realpath(last.tb_frame.f_code.co_filename)
-    if not fn.startswith(os.path.realpath(REPO) + os.sep):
-        return None
     r = Result()
     r.viol({"crashed_shard": shard}, "the library raised %r at %s:%d (%s) on an input of this shard's alphabet"
            % (exc, os.path.relpath(fn, os.path.realpath(REPO)), last.tb_lineno, last.tb_frame.f_code.co_name), kind="raise-" + type(exc).__name__)
@@ -659,8 +665,12 @@ def main(argv=None):
             mod.finish(res, tier, seed)
         req = set(mod.required_sigs(tier)) if hasattr(mod, "required_sigs") else set()
         missing = sorted(s for s in req if s not in res.sigs)
-        if missing:
+        if missing and not classify(mod, prop, res.viols)[1]:
+            # (when the run also found unlisted violations those are reported: a changed library can make a signature
+            # unreachable precisely because it misbehaves)
             raise HarnessError("alphabet no longer reaches signatures: %s" % missing[:20])
+        if missing:
+            res.notes.append("signatures not reached in this run: %s" % missing[:20])
     except HarnessError as e:
         print("HARNESS-ERROR property=%s %s" % (prop, e))
         return 3
